@@ -227,6 +227,48 @@ def P4(ctx):
             ctx.ok("P4", k, "cleanup after a panic in the scope drops no user-owned closures", [site_str(prog, k, b)])
 
 
+def P4b(ctx):
+    """Every coroutine created by Scheduler::run is resumed once (primed) before anything else can run: priming moves the thread's
+    closure from the generator's parameter slot onto the coroutine stack.  A closure left in the slot is destroyed by the drop glue
+    of the `threads` vector when another thread's panic unwinds run() - outside the model scope (see P4)."""
+    prog = ctx.prog
+    fk = "rt::scheduler::Scheduler::run"
+    fn = need_fn(ctx, "P4b", fk)
+    if fn is None:
+        return
+    inst = prog.ident(fk)
+    ea = EventAnalysis(prog, lambda p_, i, b, t, c: (["resume"] if p_.callee_key(c).endswith("::resume") and "generator::" in p_.callee_key(c) else
+                                                     (["tick"] if p_.callee_key(c) == "rt::scheduler::Scheduler::tick" else [])),
+                       stop=lambda i: prog.insts[i].key != fk).solve([inst])
+    spawns = [b for (b, t, c) in prog.sites(inst) if prog.callee_key(c) == "rt::scheduler::spawn_thread" and not fn.body.blocks[b]["cleanup"]]
+    if len(spawns) < 2:
+        ctx.missing("P4b", fk, "expected the main-thread and the queued-spawn coroutine creation")
+        return
+    body = fn.body
+    for sb in spawns:
+        # from the spawn, a resume is passed before the next tick / before returning
+        resume_blocks = set(ea.sites_may(inst, "resume"))
+        tick_blocks = set(ea.sites_may(inst, "tick"))
+        seen = set()
+        dq = list(body.succs(sb))
+        bad = False
+        while dq:
+            x = dq.pop()
+            if x in seen or x in resume_blocks:
+                continue
+            seen.add(x)
+            if x in tick_blocks or body.term(x)["k"] == "return" or x in spawns:
+                bad = True
+                break
+            dq.extend(body.succs(x))
+        if bad:
+            ctx.bad("P4b", fk, "a coroutine is created but not resumed (primed) before the scheduler goes on: until its first tick the thread's "
+                    "closure stays in the generator's parameter slot and is destroyed outside the model scope if another thread panics",
+                    site_str(prog, fk, sb))
+        else:
+            ctx.ok("P4b", "%s:spawn@bb%d" % (fk, sb), "spawn_thread is followed by resume() before the next tick", [site_str(prog, fk, sb)])
+
+
 ALLOWED_STATICS = ("rt::execution::Id::new::NEXT_ID", "rt::scheduler::STATE")
 
 
@@ -257,4 +299,5 @@ def run(ctx):
     P2(ctx)
     P3(ctx)
     P4(ctx)
+    P4b(ctx)
     P5(ctx)
